@@ -5,7 +5,7 @@ FUNCTIONS = []
 TRUSTED = ["the derivative-based reference semantics in runtime/h_gsm.py"]
 ASSUMPTIONS = []
 BOUND = 'the non-nullable trees among the C13 trees x all sequences up to length 5 (thorough 6); plus the three built-in header shapes (name groups / optional keyword / keyword) over all token sequences up to length 6 (thorough 7) over {identifier, keyword, (, ), {, other} against a direct balanced-parenthesis reference'
-RULE = 'bounds, items, word of the language, longest along the greedy run, order, disjointness, coverage of greedy-successful starts; reference by derivatives'
+RULE = 'bounds, items, word of the language, longest along the greedy run, order, disjointness, coverage of greedy-successful starts; reference by derivatives; isolation: a reported match ends where one pattern fed alone from its start last accepts (3 shapes with stateful predicates, also inside Or/And/Not, sequences up to length 5, thorough 6)'
 
 
 def bounded(tier, seed, fallback_for):
